@@ -428,6 +428,9 @@ def check_endian(res, facts):
                 rule.bad(key, verdict[1] + ": not the big-endian byte string of the integer", fn.loc)
             else:
                 rule.undecided(key, "abstract interpretation stopped (%s)" % verdict[1], fn.loc)
+        elif be == "from_bits_be" and ("rev" in names or "reverse" in names or "rchunks" in names):
+            # an independent big-endian reader: its bit placement is decided directly, for every length, by R-BITCONV
+            rule.ok(key, "independent big-endian loop; its bit placement is decided bit by bit under R-BITCONV", fn.loc)
         elif "rev" in names or "reverse" in names or "to_be_bytes" in names:
             rule.undecided(key, "not defined through %s; an independent big-endian loop is index arithmetic on run-time lengths (calls: %s)" % (le, sorted(set(n for n in names if n))[:8]), fn.loc)
         else:
@@ -589,6 +592,11 @@ def check_bitconv(res, facts, tier):
             continue
         failed = None
         cases = 0
+
+        def closure_of_(t):
+            cty = [a for a in (t["f"].get("targs") or []) if a.startswith("{closure@")]
+            cands = [c for c in facts.fns(unit="ws", crate="ark_ff") if c.kind == "Closure" and cty and cty[0] in (c.local_ty(1) or "")]
+            return cands[0] if len(cands) == 1 else None
         for n in ns:
             lens = list(range(0, 64 * n + 3)) if tier == "thorough" else sorted(set(list(range(0, 4)) + [31, 63, 64, 65, 64 * n - 1, 64 * n, 64 * n + 1, 64 * n + 2, 100 if n > 1 else 40]))
             for ln in lens:
@@ -604,9 +612,15 @@ def check_bitconv(res, facts, tier):
                             return NotImplemented
                         v2, e2 = BI.run(g, {1: argv[0]}, params={"N": n}, call_model=model, max_steps=200000)
                         return v2.get(0)
+                    # a private helper of the biginteger module (e.g. a limb packer extracted from the loop): interpreted in place
+                    for key_ in (t["f"].get("res"), t["f"].get("path")):
+                        callee = facts.get(key_, "ws") if key_ else None
+                        if callee is not None and callee.kind != "Closure" and callee.crate == "ark_ff" and "::biginteger::" in callee.id and callee.d["argc"] == len(argv) and callee.id != f.id:
+                            v2, e2 = BI.run(callee, {i + 1: x for i, x in enumerate(argv)}, params={"N": n}, call_model=model, max_steps=200000, closure_of=closure_of_)
+                            return v2.get(0)
                     return NotImplemented
                 try:
-                    vals, end = BI.run(f, {1: BI.Ref(bits)}, params={"N": n}, call_model=model, max_steps=200000)
+                    vals, end = BI.run(f, {1: BI.Ref(bits)}, params={"N": n}, call_model=model, max_steps=200000, closure_of=closure_of_)
                 except BI.Stop as e:
                     failed = ("undecided", "N = %d, %d bits: %s" % (n, ln, e))
                     break
@@ -929,8 +943,61 @@ def check_digitrange(res, facts):
             rule.ok(key, "no overflow; result within [%d, %d]" % ret, smr.loc)
 
 
+def check_ziprem(res, facts):
+    """`left.by_ref().zip(right)`: Zip asks `left` for an item first and only then finds `right` exhausted, so one item of
+    `left` is consumed and dropped.  Code that afterwards asks `left` whether anything remains (the overflow test of a
+    limb-by-limb conversion: `if digits.next().is_some() { Err(()) }`) misses a value that is exactly one item too long --
+    BigInt::<1>::try_from(2^64) == Ok(0).  Expected number of matches in the repository: zero; the witness crate keeps a
+    positive example and its harmless twin (short side first)."""
+    from rules.c07 import _ref_local
+    rule = res.rule("R-ZIPREM", "no iterator is advanced as the LEFT side of by_ref().zip(..) and inspected for left-over items afterwards (Zip drops one item of the left side when the right side ends first)", 2)
+    LEFTOVER = ("next", "len", "count", "is_empty", "peek", "last", "nth", "size_hint", "next_back", "collect", "sum", "fold", "for_each", "any", "all")
+    witness = {}
+    n_sites = 0
+    for unit in ("ws", "shapes"):
+        for fn in facts.fns(unit=unit):
+            if fn.crate not in ("ark_ff", "ark_ec", "ark_poly", "ark_serialize", "verif_shapes") or "::tests::" in fn.id:
+                continue
+            brs = [(bb, t) for bb, t in fn.calls() if t["f"].get("name") == "by_ref" and len(t["args"]) == 1]
+            if not brs:
+                continue
+            dep = DF.Dep(fn)
+            hit = None
+            for bb, t in brs:
+                src = _ref_local(fn, t["args"][0])
+                dst = op_local({"m": t["d"]}) if not isinstance(t.get("d"), dict) else None
+                if src is None:
+                    continue
+                n_sites += 1
+                for zb, zt in fn.calls():
+                    if zt["f"].get("name") != "zip" or len(zt["args"]) != 2:
+                        continue
+                    l0 = op_local(zt["args"][0])
+                    if l0 is None or not any(c is t for _, c in dep.calls_in_slice([l0])):
+                        continue
+                    # left side of the zip is this by_ref(): is `src` looked at after the zip?
+                    reach = fn.reachable_from(zb)
+                    for b2, t2 in fn.calls():
+                        if b2 in reach and b2 != zb and t2 is not t and t2["f"].get("name") in LEFTOVER and t2["args"] and _ref_local(fn, t2["args"][0]) == src:
+                            hit = (t2["f"].get("name"), t2.get("ln"))
+            if unit == "shapes":
+                if fn.name in ("zip_by_ref_leftover", "zip_by_ref_leftover_ok"):
+                    witness[fn.name] = hit is not None
+                continue
+            key = "%s|%s" % (fn.crate, fn.id[-100:])
+            if hit:
+                rule.bad(key, "an iterator advanced as the left side of by_ref().zip(..) is asked for left-over items afterwards (%s): Zip has already consumed and dropped one of them when the right side ended first, so an input exactly one item too long passes the test" % hit[0], fn.loc)
+            else:
+                rule.ok(key, "by_ref() site(s) without a left-over test behind a left-sided zip", fn.loc)
+    if witness.get("zip_by_ref_leftover") is True and witness.get("zip_by_ref_leftover_ok") is False:
+        rule.ok("witness|zip_by_ref_leftover", "positive example matched, short-side-first twin accepted")
+        rule.ok("witness|scan", "%d by_ref() call site(s) in the workspace crates scanned" % n_sites)
+    else:
+        rule.bad("witness|zip_by_ref_leftover", "the positive example in /verif/witness/shapes was not matched (or its twin was): rule has gone blind (%s)" % witness)
+
+
 def run(ctx, res):
-    facts = ctx.facts(["ws"])
+    facts = ctx.facts(["ws", "shapes"])
     res.analysed = facts.stats()
     check_limb(res, facts)
     check_chain(res, facts)
@@ -941,6 +1008,7 @@ def run(ctx, res):
     check_mulhigh(res, facts)
     check_mulword(res, facts, ctx.tier)
     check_addword(res, facts, ctx.tier)
+    check_ziprem(res, facts)
     check_shifts(res, facts, ctx.tier)
     check_bitconv(res, facts, ctx.tier)
     return {
